@@ -22,6 +22,7 @@ type Mutant struct {
 	File    string `json:"file"`
 	Find    string `json:"find"`
 	Replace string `json:"replace"`
+	Append  string `json:"append,omitempty"` // text appended to the file (new helper functions)
 	Rule    string `json:"rule,omitempty"`   // rule expected to fire
 	Benign  bool   `json:"benign,omitempty"` // behaviour-preserving edit: the check must stay silent
 	Note    string `json:"note,omitempty"`
@@ -96,7 +97,7 @@ func runMutant(prop string, m Mutant, checkBuild bool) MutantResult {
 		res.Report = fmt.Sprintf("anchor snippet occurs %d times (need exactly 1): skipped", n)
 		return res
 	}
-	s = strings.Replace(s, m.Find, m.Replace, 1)
+	s = strings.Replace(s, m.Find, m.Replace, 1) + m.Append
 	if err := os.WriteFile(fp, []byte(s), 0o644); err != nil {
 		res.Report = err.Error()
 		return res
